@@ -22,14 +22,21 @@ PI = 3.14159265358979323846  # the literal of c/dynmat.c
 # --------------------------------------------------------------------------
 
 def dm_tables(dm):
-    """The arrays DynamicalMatrix hands to the kernels (its own, not recomputed)."""
-    prim = dm.primitive
+    """The arrays the kernels receive, re-derived from PUBLIC attributes only: Primitive.p2s_map / s2p_map / p2p_map /
+    masses, Primitive.get_smallest_vectors() and, for sparse storage, the public converter sparse_to_dense_svecs (the
+    same call DynamicalMatrix makes).  `dm` is a DynamicalMatrix (its public `.primitive`) or a Primitive."""
+    prim = dm.primitive if hasattr(dm, "primitive") else dm
     p2s = np.array(prim.p2s_map, dtype="int64")
     s2p = np.array(prim.s2p_map, dtype="int64")
     p2p = prim.p2p_map
     s2pp = np.array([p2p[s2p[i]] for i in range(len(s2p))], dtype="int64")
-    svecs = np.array(dm._svecs, dtype="double", order="C")
-    multi = np.array(dm._multi, dtype="int64", order="C")
+    svecs, multi = prim.get_smallest_vectors()
+    if not prim.store_dense_svecs:
+        from phonopy.structure.cells import sparse_to_dense_svecs
+
+        svecs, multi = sparse_to_dense_svecs(svecs, multi)
+    svecs = np.array(svecs, dtype="double", order="C")
+    multi = np.array(multi, dtype="int64", order="C")
     return dict(np=len(p2s), ns=len(s2p), p2s=p2s, s2p=s2p, s2pp=s2pp, svecs=svecs, multi=multi,
                 masses=np.array(prim.masses, dtype="double"))
 
@@ -116,7 +123,10 @@ def linked_line(T, ph):
 
 def kernel_direct(T, compact, fc, qpt, use_openmp):
     lib = common._STATE["shim"].lib
-    f = lib.dym_get_dynamical_matrix_at_q
+    try:
+        f = lib.dym_get_dynamical_matrix_at_q  # exported (non-static) symbol of c/dynmat.h; an optional extra hook
+    except AttributeError:
+        return None
     f.restype = ctypes.c_int64
     vp = ctypes.c_void_p
     f.argtypes = [vp, ctypes.c_int64, ctypes.c_int64, vp, vp, vp, vp, vp, vp, vp, vp, ctypes.c_int64]
